@@ -359,7 +359,7 @@ def allowed_states(kind, wl, k):
 def inspect(directory, kind, wl, k, clock):
     """All post-mortem checks.  k = result of kill_child.  Returns list of (sig, description)."""
     out = []
-    allowed = allowed_states(kind, wl, k)
+    allowed = allowed_states(kind, wl, k) if wl.get('prefix_items') is None else None
     # 1. contents through the API of a fresh handle
     try:
         with instr.Installed(clock):
@@ -369,7 +369,20 @@ def inspect(directory, kind, wl, k, clock):
     for key, present, v, e_, t_, filed in snap['items']:
         if (present or kind == 'deque') and (v == MISS or (isinstance(v, str) and v.startswith('EXC:'))):
             out.append(('present_key_unreadable', 'key %r is reported present (in / iteration) but reading it yields %r' % (key, v)))
-    if not any(c05.final_matches(kind, snap)(s) for s in allowed):
+    if allowed is None:
+        # culling workloads: the permitted contents are those the implementation itself leaves after the finished units, and after
+        # those plus the interrupted unit, when run WITHOUT a kill on a copy of the same directory (see run_cull_workload)
+        done_idx = set(rec['index'] for rec in k['records'])
+        nfin = 0
+        for u in units_of_program(wl['program']):
+            if u[1] not in done_idx:
+                break
+            nfin += 1
+        ok_items = wl['prefix_items'][nfin:nfin + (2 if k['started'] is not None else 1)]
+        if items_view(snap) not in ok_items and not out:
+            out.append(('contents_not_atomic', 'contents after the kill %r are neither those after the finished calls %r nor those after the interrupted call as well %r'
+                        % (items_view(snap)[:8], ok_items[0][:8], ok_items[-1][:8])))
+    elif not any(c05.final_matches(kind, snap)(s) for s in allowed):
         if not out:
             out.append(('contents_not_atomic', 'contents after the kill %r are neither the state after the finished calls %r nor that plus the interrupted '
                         'call %r' % ([[x[0], x[2]] for x in snap['items']][:8], allowed[0].final_view()[:8], allowed[-1].final_view()[:8])))
@@ -1061,10 +1074,123 @@ def fanout_block_witness(ctx, res, stats):
 # running
 
 
+# ---------------------------------------------------------------------------
+# kills inside a call that CULLS: the store of set / setitem / add / push / an inserting incr removes, in the same transaction,
+# (a) up to cull_limit expired rows and (b) under an evicting policy, once the volume exceeds size_limit, live rows.  A kill
+# before that transaction's COMMIT must leave every culled item fully present (row AND value file); a kill after it, fully
+# absent.  The reference dictionary of c05 knows no eviction, so the permitted contents come from the implementation itself,
+# run WITHOUT a kill: contents after the first i top-level units, for every i (on copies of the same directory, same virtual
+# clock -- deterministic).  After a kill with i units finished: contents = those after i units, or after i + 1 if one was in
+# flight.  Everything else of the post-mortem (present keys readable, check(), a write, repair, debris) is inspect().
+
+
+def items_view(snap):
+    return sorted(([x[0], x[1], x[2], x[3], x[4]] for x in snap['items']), key=repr)
+
+
+def cull_workloads():
+    out = []
+    pre = [{'op': 'set', 'key': 'pre', 'value': 1}]
+    post = [{'op': 'set', 'key': 'post', 'value': SMALL}]
+    live = [{'op': 'set', 'key': 'l%d' % i, 'value': 'L%d' % i + '-' * (12 + i)} for i in range(4)] + [{'op': 'set', 'key': 'li', 'value': 3}]
+    dead = [{'op': 'set', 'key': 'dead1', 'value': BIG, 'expire': 50}, {'op': 'set', 'key': 'dead2', 'value': BIG2, 'expire': 40, 'tag': 't'},
+            {'op': 'set', 'key': 'dead3', 'value': 4, 'expire': 45}]
+    for variant in ('evict', 'expired', 'both'):
+        setup = (live if variant != 'expired' else live[:1]) + (dead if variant != 'evict' else [])
+        for vname, new in (('inline', 6), ('file', BIG2)):
+            calls = [('set', {'op': 'set', 'key': 'k', 'value': new}), ('setitem', {'op': 'setitem', 'key': 'k', 'value': new}),
+                     ('set-replace', {'op': 'set', 'key': 'l0', 'value': new}),
+                     ('add', {'op': 'add', 'key': 'k', 'value': new}), ('push', {'op': 'push', 'value': new}),
+                     ('push-front-prefix', {'op': 'push', 'value': new, 'prefix': 'q', 'side': 'front'})]
+            if vname == 'inline':
+                calls.append(('incr', {'op': 'incr', 'key': 'k', 'delta': 3}))
+            for cname, call in calls:
+                for cull_limit in (1, 2, 10):
+                    settings = dict(SETTINGS, cull_limit=cull_limit)
+                    if variant != 'expired':
+                        settings['size_limit'] = 1
+                    for block in (False, True):
+                        prog = pre + (in_block([call, {'op': 'incr', 'key': 'n'}]) if block else [call]) + post
+                        wl = W('cull:%s:%s:%s:c%d%s' % (variant, cname, vname, cull_limit, ':block' if block else ''), 'cache', setup, prog, settings=settings)
+                        # the setup removes nothing: no size limit, no lazy culling
+                        wl['setup_settings'] = dict(SETTINGS, cull_limit=0)
+                        out.append(wl)
+    return out
+
+
+def run_cull_workload(ctx, res, stats, wl, stride=1):
+    kind = wl['kind']
+    tmpl = prepare_template(ctx, wl)
+    clock = instr.Clock(c05.NOW)
+    units = units_of_program(wl['program'])
+    prefix_items, full = [], None
+    for i in range(len(units) + 1):
+        d0 = concdrv.scratch(ctx, 'c07')
+        shutil.rmtree(d0)
+        shutil.copytree(tmpl, d0)
+        # (the child opens the directory with the workload's settings also for the empty prefix)
+        full = concdrv.kill_child(d0, wl['program'][:units[i - 1][1] + 1] if i else [], kill_n=None, kind=kind, settings=wl['settings'])
+        if full['fatal'] or not full['done']:
+            res.violations.append(fw.Violation('workload_failed', 'workload %s does not complete without a kill: %r' % (wl['name'], full['fatal']),
+                                               {'check': 'cull-kill', 'workload': wl, 'kill_n': None}))
+            shutil.rmtree(d0, ignore_errors=True)
+            shutil.rmtree(tmpl, ignore_errors=True)
+            return
+        with instr.Installed(clock):
+            prefix_items.append(items_view(concdrv.api_snapshot(d0, kind)))
+        shutil.rmtree(d0, ignore_errors=True)
+    n = full['nevents']
+    wl = dict(wl, prefix_items=prefix_items)
+    stats['cull_workloads'] = stats.get('cull_workloads', 0) + 1
+    stats['cull_workloads_removing_items'] = stats.get('cull_workloads_removing_items', 0) + int('sql:DELETE' in full['events'])
+    for kn in range(0, n, stride):
+        d = concdrv.scratch(ctx, 'c07')
+        shutil.rmtree(d)
+        shutil.copytree(tmpl, d)
+        k = concdrv.kill_child(d, wl['program'], kill_n=kn, kind=kind, settings=wl['settings'])
+        case = {'check': 'cull-kill', 'workload': {x: y for x, y in wl.items() if x != 'prefix_items'}, 'kill_n': kn, 'kill_event': k.get('kill_event'),
+                'events_before': k['events'][-12:]}
+        if k['fatal'] or not k['killed']:
+            res.violations.append(fw.Violation('child_failed', 'child of %s kill %d: %r' % (wl['name'], kn, k['fatal']), case))
+            shutil.rmtree(d, ignore_errors=True)
+            continue
+        viol, info = inspect(d, kind, wl, k, clock)
+        stats['kills'] += 1
+        stats['cull_kills'] = stats.get('cull_kills', 0) + 1
+        stats['kills_by_event'][k['kill_event']] = stats['kills_by_event'].get(k['kill_event'], 0) + 1
+        res.count([wl['name'], kn], nontrivial=True)
+        for sig, desc in viol[:3]:
+            res.violations.append(fw.Violation(sig, '%s [workload %s, killed before event %d/%d = %s]' % (desc, wl['name'], kn, n, k['kill_event']), case))
+            stats['by_sig'][sig] = stats['by_sig'].get(sig, 0) + 1
+        shutil.rmtree(d, ignore_errors=True)
+        if c05.enough(res, ID, EXPECTED_SIGS):
+            break
+    shutil.rmtree(tmpl, ignore_errors=True)
+
+
+def cull_kills(ctx, res, stats, thorough, deadline):
+    wls = cull_workloads()
+    if not thorough:
+        rng = random.Random(ctx.seed * 104729 + 11)
+        pick = []
+        # every storing method once per variant-independent draw: the (variant, value kind, cull_limit, block) of each is seeded
+        for cname in ('set', 'setitem', 'set-replace', 'add', 'push', 'push-front-prefix', 'incr'):
+            pick.append(rng.choice([w for w in wls if w['name'].split(':')[2] == cname]))
+        # and always: an evicting push / set / add of every kind of value inside and outside a block (cull_limit 2)
+        pick += [w for w in wls if w['name'] in ('cull:evict:push:inline:c2', 'cull:both:set:file:c2:block', 'cull:expired:push:file:c2:block', 'cull:evict:add:file:c2')
+                 and w not in pick]
+        wls = pick
+    for wl in wls:
+        run_cull_workload(ctx, res, stats, wl)
+        if _time.time() > deadline or c05.enough(res, ID, EXPECTED_SIGS):
+            stats['cull_stopped_early'] = _time.time() > deadline
+            break
+
+
 def prepare_template(ctx, wl):
     """Directory with the workload's setup applied (by a child process, so the parent holds no connection)."""
     d = concdrv.scratch(ctx, 'c07t')
-    k = concdrv.kill_child(d, wl['setup'], kill_n=None, kind=wl['kind'], settings=wl['settings'], timeout=60, now=SETUP_NOW)
+    k = concdrv.kill_child(d, wl['setup'], kill_n=None, kind=wl['kind'], settings=wl.get('setup_settings') or wl['settings'], timeout=60, now=SETUP_NOW)
     if k['fatal'] or not k['done']:
         raise RuntimeError('setup of %s failed: %r' % (wl['name'], k['fatal']))
     return d
@@ -1565,6 +1691,11 @@ def run(ctx, big=False):
                 '3 pages, Deque and Index operations; each workload = [a finished call, the call under test, a later call]; the child is killed '
                 '(os._exit) before its n-th traced event for EVERY n; the parent then reads the directory through a fresh handle.  '
                 'After the repair (check(fix=True)) every file and directory below the cache directory is accounted for (database, value file of a row, non-empty directory).  '
+                'Culling workloads: set / setitem / replacing set / add / push (both ends, prefix) / inserting incr, plain and inside a transact block, inline and file-backed '
+                'new values, on a cache whose stores CULL file-backed items in the same transaction: expired rows, live rows evicted under size_limit=1 (the setup ran '
+                'without limit and without culling), or both; cull_limit 1, 2, 10; every kill point; the permitted contents after a kill with i finished units are those '
+                'the implementation leaves when run without a kill for i (or, with a unit in flight, i + 1) units on a copy of the same directory; the rest of the '
+                'post-mortem is the same (a key reported present is readable, check(), a write, repair, debris).  '
                 'Live iterators: an iterator of the container (iter / reversed / iterkeys of a Cache; iter / reversed of a Deque, an Index, a FanoutCache and of '
                 'the Deque / Index a FanoutCache hands out; the keys() / values() / items() views of such an Index) takes its first item and is KEPT, then '
                 'storing, replacing and removing calls (inline and file-backed values, a transact block) complete, then one more call, then the rest of the '
@@ -1608,6 +1739,8 @@ def run(ctx, big=False):
             stats['stopped_early'] = True
             break
     if not c05.enough(res, ID, EXPECTED_SIGS):
+        cull_kills(ctx, res, stats, thorough and not big, _time.time() + (40 if not thorough else 600))
+    if not c05.enough(res, ID, EXPECTED_SIGS):
         iterator_kills(ctx, res, stats, thorough and not big)
     if not c05.enough(res, ID, EXPECTED_SIGS):
         live_iterators(ctx, res, stats)
@@ -1636,6 +1769,7 @@ def run(ctx, big=False):
         'kills_inside_an_open_transaction': stats['kills_inside_transaction'], 'kills_leaving_unreferenced_files': stats['kills_leaving_debris'],
         'two_process_kill_runs': stats.get('concurrent_kills', 0), 'kills_beside_a_live_iterator': stats.get('iterator_kills', {}),
         'live_iterators_probed_for_the_write_lock': stats.get('live_iterators', 0), 'violations_by_sig': stats['by_sig'], 'exhaustive': bool(thorough and not stats.get('stopped_early')),
+        'culling_kills': {k: v for k, v in stats.items() if k.startswith('cull_')},
         'soak': {k: v for k, v in stats.items() if k.startswith('soak_')}})
     res.extra_private = {'kill_records': KILL_RECORDS}
     if not ctx.search_mode:
@@ -1710,6 +1844,18 @@ def replay(payload):
             print('opening a %s %s directory, killed before event %s (%s); events executed: %s' % (case['label'], case['kind'], case['kill_n'], k.get('kill_event'), ' '.join(k['events'])))
             print('monitor:', problems)
             return not problems
+        finally:
+            ctx.cleanup()
+    if case.get('check') == 'cull-kill':
+        ctx = fw.Ctx('C07', 'quick', 1)
+        try:
+            res, stats = fw.Result(), new_stats()
+            wl = case['workload']
+            print('workload %s (settings %s; setup %s): %s' % (wl['name'], wl['settings'], wl['setup'], wl['program']))
+            run_cull_workload(ctx, res, stats, wl)
+            for v in res.violations:
+                print('monitor:', v.sig, v.desc)
+            return not res.violations
         finally:
             ctx.cleanup()
     if case.get('check') != 'kill':
